@@ -26,6 +26,7 @@ import numpy as np
 
 from mc import alphabets as A
 from mc import refmodels as R
+from mc.generic import generic
 from mc.runner import HarnessError, digest
 
 SPEC = dict(
@@ -40,15 +41,15 @@ SPEC = dict(
     ),
     bound=dict(
         quick=(
-            "exact family: all {-1,0,1} 2x2 without zero rows, structural sublist canonical_ternary of 2x3 and 3x2, D(seed) 3x4, full "
+            "exact family: all {-1,0,1} 2x2 without zero rows, structural sublist canonical_ternary of 2x3 and 3x2, D(seed) and G(seed) 3x4, full "
             "triples (c1 in L3^m u L1^m u L2^m, c2 in {1, reversed c1}, (a,b) in 3 pairs); PCGrad: m=2 all 4 schedules x full triples, "
             "m=3 all 216 schedules x light triples on canonical 3x2 with conflicts; Random: {-2,0,3}^m x light triples; UPGrad: reg "
-            "ladder x 4 pref vectors x light triples on full-row-rank 2x2, canonical 2x3, 40 canonical 3x3, D(seed) 2x3"
+            "ladder x 4 pref vectors x light triples on full-row-rank 2x2, canonical 2x3, 40 canonical 3x3, D(seed) 2x3, 4 of G(seed) 3x4 (mc/generic.py: D(seed) is rank 2 up to rounding for m, n >= 3)"
         ),
         thorough=(
-            "exact family: all 2x2, 2x3, 3x2 without zero rows, canonical 3x3, D(seed) 2x3, 3x4; PCGrad: all 2x2, 2x3 x 4 schedules x full "
+            "exact family: all 2x2, 2x3, 3x2 without zero rows, canonical 3x3, D(seed) 2x3, 3x4, G(seed) 3x4; PCGrad: all 2x2, 2x3 x 4 schedules x full "
             "triples, all conflicting 3x2 and canonical conflicting 3x3 x 216 schedules x light triples, canonical 3x2 x 8 effective "
-            "schedules x full triples; UPGrad: all full-row-rank 2x2 (full triples), 2x3, canonical 3x3, D(seed) 2x3, 3x4 (light triples)"
+            "schedules x full triples; UPGrad: all full-row-rank 2x2 (full triples), 2x3, canonical 3x3, D(seed) 2x3, G(seed) 3x4 (light triples); PCGrad 216 schedules also on conflicting G(seed) 3x4"
         ),
     ),
     assumptions=[
@@ -130,10 +131,12 @@ def _fullrank(M):
 
 def mats(src, m, n, seed):
     """Named, deterministic matrix lists (zero rows excluded: c -> diag(c) J ignores them anyway and ConFIG's unit rows need them non-zero)."""
-    k = (src, m, n, seed if src.startswith("dense") else 0)
+    k = (src, m, n, seed if src.startswith(("dense", "generic")) else 0)
     if k not in _LISTS:
         if src.startswith("dense"):
             L = A.dense(seed, m, n, 8)
+        elif src.startswith("generic"):
+            L = generic(seed, m, n, 8)
         else:
             L = list(A.ternary(m, n)) if src.startswith("all") else A.canonical_ternary(m, n)
             L = [M for M in L if _nozero(M)]
@@ -163,7 +166,7 @@ def gen_cases(tier, seed):
         add("pcgrad", "all-conflict", 3, 2, 1, "light")
         add("pcgrad", "canon-conflict", 3, 3, 1, "light")
         add("pcgrad", "canon-conflict", 3, 2, 2, "full", sched="effective")
-        add("pcgrad", "dense-conflict", 3, 4, 1, "light")
+        add("pcgrad", "generic-conflict", 3, 4, 1, "light")
     else:
         add("pcgrad", "canon-conflict", 3, 2, 1, "light")
     for (m, n) in [(2, 2), (2, 3)]:
@@ -176,6 +179,7 @@ def gen_cases(tier, seed):
         add("exact", "canon", 3, 3, 2, "full")
         add("exact", "dense", 2, 3, 4, "full")
     add("exact", "dense", 3, 4, 2, "full")
+    add("exact", "generic", 3, 4, 2, "full")
     # Random
     for (m, n) in [(2, 2), (2, 3), (3, 2)]:
         add("random", "all" if T or (m, n) == (2, 2) else "canon", m, n, 8, "light")
@@ -184,9 +188,10 @@ def gen_cases(tier, seed):
     add("upgrad", "all-fullrank" if T else "canon-fullrank", 2, 3, 3, "light")
     if T:
         add("upgrad", "canon-fullrank", 3, 3, 2, "light")
-        add("upgrad", "dense-fullrank", 3, 4, 2, "light")
+        add("upgrad", "generic-fullrank", 3, 4, 2, "light")
     else:
         add("upgrad", "canon-frconf", 3, 3, 2, "light", first=40)
+        add("upgrad", "generic-fullrank", 3, 4, 2, "light", first=4)
     add("upgrad", "dense-fullrank", 2, 3, 2, "light")
     return cases
 
@@ -280,7 +285,7 @@ def _run_exact(case, res):
     for J in mats(case["src"], case["m"], case["n"], case["seed"])[case["lo"] : case["hi"]]:
         m = J.shape[0]
         rn = Runner(J)
-        exact_int = not case["src"].startswith("dense")
+        exact_int = not case["src"].startswith(("dense", "generic"))
         cfgs = [("Mean", "Mean", lambda: T.Mean(), None), ("Sum", "Sum", lambda: T.Sum(), None)]
         for k, w in enumerate(CW):
             wt = torch.tensor(w[:m], dtype=torch.float64)
